@@ -283,6 +283,7 @@ package interceptor
 //@   ensures b == nil ==> result3 == nil && !result1 && !result2
 //@   assigns b.lastMatched, b.lastChanged, b.lastFailed
 //@ contract translateDataBlobs
+//@   shape sig=(logger log.Logger,match stringMatcher,visitor visitor,blobs []*common.DataBlob)(result []*common.DataBlob,anyMatched bool,anyChanged bool,retErr error);loops=range;lits=0;fv=
 //@   props C17 C13
 //@   ensures @every_failure_reported: result3 == nil ==> (forall k int :: { old(blobs[k]) } 0 <= k && k < len(blobs) && old(blobs[k]) != nil ==> !old(blobs[k]).lastFailed)
 //@   ensures @same_list: len(result0) == len(blobs)
